@@ -95,7 +95,9 @@ func c03Wheres() []c03Where {
 
 func c03Limits(b int) []string {
 	return []string{"", " limit 0, 2", " limit 1, 2", fmt.Sprintf(" limit %d, 3", b), fmt.Sprintf(" limit %d, 1", 2*b), " limit 0, 0", " limit 2",
-		fmt.Sprintf(" limit %d, 2", b+1), fmt.Sprintf(" limit %d, 2", 2*b+1)}
+		fmt.Sprintf(" limit %d, 2", b+1), fmt.Sprintf(" limit %d, 2", 2*b+1),
+		// counts larger than a batch behind offsets that end inside a batch
+		fmt.Sprintf(" limit 1, %d", 2*b+1), fmt.Sprintf(" limit %d, %d", b+1, 2*b), " limit 1, 100"}
 }
 
 type c03Aggr struct {
